@@ -309,6 +309,30 @@ pub fn run(reg: &dyn Registry, ctx: &Ctx) -> Outcome {
             }
         }
     }
+    // the largest round counts (u8 bookkeeping of the rounds loop): every deviation kind at the priming
+    // probe, at the first and second counted measurement and at the last one
+    for rounds in [254u8, 255] {
+        let per = jitter_env::readings_per_word(rounds);
+        let base = jitter_env::raw_readings(ctx.seed ^ 0x14FF ^ rounds as u64, 2 * per + 200);
+        for &k in DEV_MENU.iter().chain([crate::jitter_env::Dev::Zero].iter()) {
+            for pos in [2usize, 5, 8, per - 2, per + 5] {
+                let rd = deviate(&base, &[(pos, k)]);
+                let mut g = reg.jitter(TimerScript::new(rd));
+                let r = guarded(|| {
+                    g.jitter().unwrap().set_rounds(rounds);
+                    g.next_u64();
+                    g.next_u32();
+                });
+                ctx.add("jitter_executions", 1);
+                ctx.add("transitions", 2);
+                if let Err(o) = r {
+                    if !matches!(o, Obs::Horizon) {
+                        ctx.violation("C14:jitter:deviation:max-rounds", &format!("JitterRng: rounds {} with deviation {:?} at reading {}: panicked: {:?}", rounds, k, pos, o), json!({"kind":"note","rounds":rounds,"deviation":format!("{:?}",k),"position":pos}));
+                    }
+                }
+            }
+        }
+    }
     // the public seed wrapper type: Debug under many formatting-flag combinations, AsRef / AsMut / Default
     {
         let (n, bad) = reg.seed_type_format_probe();
